@@ -158,7 +158,7 @@ func sliceElems(v ssa.Value) ([]elem, bool) {
 // isParam: v is parameter #i (by name) of its function.
 func isParam(v ssa.Value, name string) bool {
 	p, ok := strip(v).(*ssa.Parameter)
-	return ok && p.Name() == name
+	return ok && (p.Name() == name || paramName(p) == name)
 }
 
 // mapLookupOf: v is (an extract of) a map lookup m[k]; returns the map value.
